@@ -68,12 +68,12 @@ pub fn load_bytes(bytes: &[u8]) -> Option<&[u8]> {
     return None;
   }
 
-  let len: u32 = load_u32(&bytes[..4])?;
-  if bytes.len() < (4 + len) as usize {
+  let len = load_u32(&bytes[..4])? as usize;
+  if bytes.len() - 4 < len {
     return None;
   }
 
-  Some(&bytes[4..4 + len as usize])
+  Some(&bytes[4..4 + len])
 }
 
 /// An `AccessStructure` defines how a message is to be split among multiple parties
